@@ -30,6 +30,10 @@ pub struct Seg {
     pub vaddr: u64,
     pub data: Vec<u8>,
     pub memsz: u64,
+    /// p_paddr: meaningless for a user-space executable; linkers write p_vaddr, other producers 0 or anything
+    pub paddr: u64,
+    /// p_align: 0 and 1 mean "no alignment"; otherwise a power of two with p_vaddr = p_offset modulo it
+    pub align: u64,
 }
 
 #[derive(Clone, Debug)]
@@ -113,10 +117,10 @@ pub fn write_elf_layout(spec: &ElfSpec) -> (Vec<u8>, Layout) {
         put32(&mut ph, s.flags);
         put64(&mut ph, seg_off[si]);
         put64(&mut ph, s.vaddr);
-        put64(&mut ph, s.vaddr);
+        put64(&mut ph, s.paddr);
         put64(&mut ph, s.data.len() as u64);
         put64(&mut ph, s.memsz);
-        put64(&mut ph, 0x1000);
+        put64(&mut ph, s.align);
         types.push(PT_LOAD);
     }
     for e in extra_iter {
@@ -274,7 +278,9 @@ pub fn gen_spec(rng: &mut Rng, rich: bool) -> ElfSpec {
             data.push(((mix64(counter ^ i) % 255) + 1) as u8);
         }
         let flags = if rich { rng.below(8) as u32 } else { *rng.pick(&[4u32, 5, 6]) };
-        segs.push(Seg { flags, vaddr, data, memsz });
+        let paddr = if rich { match rng.below(6) { 0 => 0, 1 => rng.val(), 2 => vaddr.wrapping_add(0x1000_0000), _ => vaddr } } else { vaddr };
+        let align = if rich { *rng.pick(&[0x1000u64, 0x1000, 0x1000, 0, 1, 0x10, 0x100, 0x800]) } else { 0x1000 };
+        segs.push(Seg { flags, vaddr, data, memsz, paddr, align });
         // next segment: on a distinct page, sometimes the very next one
         let span_pages = (voff + memsz + 0xfff) / 0x1000;
         page += span_pages + if rich { *rng.pick(&[0u64, 0, 1, 2, 16]) } else { 1 + rng.below(4) };
